@@ -1790,6 +1790,19 @@ class Exec(Engine):
             ty = c.types.get(p)
             if ty is None:
                 raise EngineError('%s: parameter %r has no type in the contract' % (c.key, p))
+            if ty == 'Default':
+                # this variant of the contract is about the call that leaves the parameter at its default
+                pos = fnode.args.posonlyargs + fnode.args.args
+                dflt = None
+                if p in [a.arg for a in pos]:
+                    names = [a.arg for a in pos]
+                    off = len(names) - len(fnode.args.defaults)
+                    if names.index(p) >= off:
+                        dflt = fnode.args.defaults[names.index(p) - off]
+                if dflt is None:
+                    raise EngineError('%s: parameter %r has no default' % (c.key, p))
+                st.env[p] = self.default_value(dflt, st)
+                continue
             st.env[p] = self.make_input(st, p, ty)
         for g, ty in c.extra.get('ghost_params', {}).items():
             st.env[g] = self.make_input(st, g, ty)
